@@ -135,32 +135,29 @@ def expand_entries(ctx, entries):
 
 
 def _shape_from_counts(ctx: Context, fi, ret) -> tuple[bool, str]:
-    """A mesh's grid_shape written out kind by kind: {kind: (topology.<kind>_count,)}, the edge entry added under the guard
-    that also adds the edge kind, and each count being the size of the dimension that grid_dimensions binds to that kind."""
+    """A mesh's grid_shape written out kind by kind: {kind: (topology.<kind>_count,)}, the edge entry present under the
+    condition that also adds the edge kind, and each count being the size of the dimension that grid_dimensions binds to
+    that kind.  The dictionary may be a display plus guarded stores, or a comprehension over a table of counts."""
+    from .common import expand_locals, facts, symbolic_dict
     flow = ctx.flow(fi)
-    entries: dict[str, tuple[ast.AST, ast.AST]] = {}
-    v = flow.resolve(ret.value)
-    if isinstance(ret.value, ast.Name):
-        for d in flow.defs_of(ret.value):
-            if isinstance(d.value, ast.Dict):
-                v = d.value
-        for n in walk_no_nested(fi.node):
-            if isinstance(n, ast.Assign) and isinstance(n.targets[0], ast.Subscript) and isinstance(n.targets[0].value, ast.Name) \
-                    and n.targets[0].value.id == ret.value.id:
-                entries[norm_text(n.targets[0].slice)] = (n.value, n)
-    if not isinstance(v, ast.Dict):
-        return False, norm_text(v)
-    for k, val in zip(v.keys, v.values):
-        entries[norm_text(k)] = (val, v)
+    entries = symbolic_dict(ctx, fi, ret.value)
+    if entries is None:
+        return False, norm_text(flow.resolve(ret.value))[:160]
     topo = ctx.p.cls('emsarray.conventions.ugrid.Mesh2DTopology')
     gd = ctx.p.functions.get(f"{fi.cls.qualname}.grid_dimensions")
-    gk = ctx.p.functions.get(f"{fi.cls.qualname}.grid_kinds")
-    if gd is None or gk is None or topo is None:
-        return False, 'no grid_dimensions / grid_kinds beside this grid_shape'
-    from .common import guards
+    if gd is None or topo is None:
+        return False, 'no grid_dimensions beside this grid_shape'
+    dims = symbolic_dict(ctx, gd, gd.returns()[0].value) if gd.returns() else None
+    if dims is None:
+        return False, 'grid_dimensions is not a dictionary built from literals'
+    dmap = {k: (v, c) for k, v, c in dims}
     seen = []
-    for key, (val, where) in sorted(entries.items()):
+    for key, val, cond in sorted(entries, key=lambda x: x[0]):
         kind = key.rpartition('.')[2]
+        try:
+            val = expand_locals(flow, val)
+        except Exception:
+            pass
         elts = val.elts if isinstance(val, (ast.Tuple, ast.List)) else None
         if not elts or len(elts) != 1 or norm_text(elts[0]) != f"self.topology.{kind}_count":
             return False, f"{key}: {norm_text(val)}"
@@ -168,17 +165,22 @@ def _shape_from_counts(ctx: Context, fi, ret) -> tuple[bool, str]:
         first = sorted(count.returns(), key=lambda r: r.lineno)[0] if count is not None and count.returns() else None
         if first is None or norm_text(ctx.flow(count).resolve(first.value)) != f"self.dataset.sizes[self.{kind}_dimension]":
             return False, f"{kind}_count is not the size of {kind}_dimension"
-        # the dimension bound to this kind is that same topology dimension
-        bound = [n for n in ast.walk(gd.node) if isinstance(n, (ast.List, ast.Tuple)) and len(n.elts) == 1
-                 and norm_text(n.elts[0]) == f"self.topology.{kind}_dimension"]
-        if not bound:
+        if key not in dmap:
+            return False, f"grid_dimensions has no entry {key}"
+        dval, dcond = dmap[key]
+        try:
+            dval = expand_locals(ctx.flow(gd), dval)
+        except Exception:
+            pass
+        delts = dval.elts if isinstance(dval, (ast.Tuple, ast.List)) else None
+        if not delts or len(delts) != 1 or norm_text(delts[0]) != f"self.topology.{kind}_dimension":
             return False, f"grid_dimensions does not bind {key} to topology.{kind}_dimension"
-        g_here = sorted(guards(fi, where)) if where is not v else []
-        g_dims = sorted(g for g in guards(gd, bound[0]))
-        if g_here != g_dims:
-            return False, f"{key} is listed under {g_here}, its dimension under {g_dims}"
+        if set(cond) != set(dcond):
+            return False, f"{key} is listed under {sorted(cond)}, its dimension under {sorted(dcond)}"
         seen.append(kind)
-    return len(seen) >= 2, f"{{kind: (topology.<kind>_count,)}} for {seen}, each count the size of that kind's dimension, same guards as grid_dimensions"
+    if set(k for k, _, _ in entries) != set(dmap):
+        return False, f"kinds {sorted(k for k, _, _ in entries)} against grid_dimensions {sorted(dmap)}"
+    return len(seen) >= 2, f"{{kind: (topology.<kind>_count,)}} for {seen}, each count the size of that kind's dimension, same conditions as grid_dimensions"
 
 
 def run(ctx: Context) -> None:
